@@ -1339,7 +1339,7 @@ c11_fault_at!(c11_writer_fault_k018, 18);
 // @h prop=C11 tier=thorough t=1500 mem=14 name=c11_writer_fault_k019 uws="fn:^std::ptr::drop_glue::<:2;fn:Drop>::drop$:2;fn:drop_box_raw:2;fn:^std::mem::drop::<:2"
 c11_fault_at!(c11_writer_fault_k019, 19);
 /// C11 writer scenario (start_file a, write, start_file b, write, finish, drop): the sink's I/O call number 20 fails (whatever its kind: write, seek or flush). No call panics - neither then nor later, incl. the implicit finalisation on drop -, the failure is reported by some call, and a failure-free run yields exactly the reference archive.
-// @h prop=C11 tier=thorough t=1500 mem=14 name=c11_writer_fault_k020 uws="fn:^std::ptr::drop_glue::<:2;fn:Drop>::drop$:2;fn:drop_box_raw:2;fn:^std::mem::drop::<:2"
+// @h prop=C11 tier=quick t=1500 mem=14 name=c11_writer_fault_k020 uws="fn:^std::ptr::drop_glue::<:2;fn:Drop>::drop$:2;fn:drop_box_raw:2;fn:^std::mem::drop::<:2"
 c11_fault_at!(c11_writer_fault_k020, 20);
 /// C11 writer scenario (start_file a, write, start_file b, write, finish, drop): the sink's I/O call number 21 fails (whatever its kind: write, seek or flush). No call panics - neither then nor later, incl. the implicit finalisation on drop -, the failure is reported by some call, and a failure-free run yields exactly the reference archive.
 // @h prop=C11 tier=quick t=300 mem=4 name=c11_writer_fault_k021 uws="fn:^std::ptr::drop_glue::<:2;fn:Drop>::drop$:2;fn:drop_box_raw:2;fn:^std::mem::drop::<:2"
@@ -1907,3 +1907,68 @@ api_harness!(c13_append_to_empty_from_state, 10, {
     kani::cover!(add);
     kani::cover!(!add);
 });
+
+macro_rules! c11_append_read_fault {
+    ($name:ident, $k:expr) => {
+        #[kani::proof]
+        #[kani::unwind(10)]
+        #[kani::stub(time::OffsetDateTime::now_utc, crate::verif_kit::stub_now_utc)]
+        #[kani::stub(crc32fast::Hasher::internal_new_specialized, crate::verif_kit::stub_crc_specialized)]
+        #[kani::stub(alloc::fmt::format, crate::verif_kit::stub_format)]
+        fn $name() {
+            const N: usize = 160;
+            let mut b = [0u8; N];
+            let mut v = EntryVals::any();
+            v.flags = 0;
+            kani::assume(v.usize_ != 0xFFFF_FFFF);
+            kani::assume(v.method != 99);
+            let name: [u8; 1] = [b'o'];
+            let payload: [u8; 2] = kani::any();
+            let cm: [u8; 2] = kani::any();
+            v.csize = 2;
+            v.offset = 0;
+            v.disk = 0;
+            let p = put_local(&mut b, 0, &v, v.crc, 2, v.usize_, &name, &[]);
+            b[p] = payload[0];
+            b[p + 1] = payload[1];
+            let cd0 = p + 2;
+            let e0 = put_central(&mut b, cd0, &v, &name, &TAILX, &[]);
+            let end0 = put_eocd(&mut b, e0, 0, 0, 1, 1, (e0 - cd0) as u32, cd0 as u32, &cm);
+            let mut sink = Sink::<N>::from_array(b, end0);
+            sink.env = Env::faulty($k, K_READ | K_SEEK);
+            match ZipWriter::new_append(sink.handle()) {
+                Ok(w) => {
+                    // tolerated only if the failing call was the final repositioning seek, whose
+                    // result the crate documents as ignored - but then every entry must be there
+                    assert!(!sink.env.faulted || w.files.len() == 1, "an I/O failure while re-reading the old directory was swallowed and entries were lost");
+                    core::mem::forget(w);
+                }
+                Err(e) => {
+                    assert!(sink.env.faulted, "new_append failed without any I/O failure");
+                    core::mem::forget(e);
+                }
+            }
+            kani::cover!(sink.env.faulted == ($k < 100));
+        }
+    };
+}
+/// C11 append: the existing archive's reader fails (read or seek) at I/O call 30 while
+/// new_append re-reads the old central directory: new_append returns an error - never a writer
+/// that silently lost the old entries.
+// @h prop=C11,C13 tier=quick t=300 mem=4 name=c11_append_read_fault_k030 uws="fn:^std::ptr::drop_glue::<std::io::Error>$:2"
+c11_append_read_fault!(c11_append_read_fault_k030, 30);
+/// C11 append, fault at I/O call 22.
+// @h prop=C11,C13 tier=quick t=300 mem=4 name=c11_append_read_fault_k022 uws="fn:^std::ptr::drop_glue::<std::io::Error>$:2"
+c11_append_read_fault!(c11_append_read_fault_k022, 22);
+/// C11 append, fault at I/O call 38.
+// @h prop=C11,C13 tier=quick t=300 mem=4 name=c11_append_read_fault_k038 uws="fn:^std::ptr::drop_glue::<std::io::Error>$:2"
+c11_append_read_fault!(c11_append_read_fault_k038, 38);
+/// C11 append, no fault (index beyond the scenario): new_append succeeds.
+// @h prop=C11,C13 tier=quick t=300 mem=4 name=c11_append_read_fault_k200 uws="fn:^std::ptr::drop_glue::<std::io::Error>$:2"
+c11_append_read_fault!(c11_append_read_fault_k200, 200);
+/// C11 append, fault at I/O call 26.
+// @h prop=C11,C13 tier=quick t=300 mem=4 name=c11_append_read_fault_k026 uws="fn:^std::ptr::drop_glue::<std::io::Error>$:2"
+c11_append_read_fault!(c11_append_read_fault_k026, 26);
+/// C11 append, fault at I/O call 34.
+// @h prop=C11,C13 tier=quick t=300 mem=4 name=c11_append_read_fault_k034 uws="fn:^std::ptr::drop_glue::<std::io::Error>$:2"
+c11_append_read_fault!(c11_append_read_fault_k034, 34);
